@@ -3,6 +3,9 @@
 // Epoch contract of the deferred-reclamation manager (S13) and ghost accessors.
 
 use super::*;
+// explicit imports: the contracts must not depend on which names the parent module happens to import
+use std::mem;
+use std::ptr;
 use crate::verif_hooks::*;
 
 impl MemoryManager {
